@@ -75,6 +75,50 @@ theorem C06_everything_python_evaluated_is_recorded (ops : Ops) (env : Env) (e :
   rw [← (C06_recomputed_values_are_pythons ops env e v P hwf hid h).2.mem_iff] at hp
   exact (List.mem_filter.mp hp).1
 
+/-- the iterable of a comprehension's first `for` is evaluated by Python in the enclosing scope: everything Python
+evaluates there (outside comprehensions nested in it) is recorded by the re-evaluator with Python's value, whatever
+the comprehension's targets are called -/
+theorem C06_first_iterable_is_recorded (ops : Ops) (env : Env) (i : Nat) (targets : List String) (first : Expr)
+    (inner : List Expr) (v : Val) (P : Log)
+    (hwf : first.wf = true) (hid : (allIds (.comp i targets first inner)).Nodup)
+    (h : pyEval ops env (.comp i targets first inner) = .ok (v, P)) :
+    ∃ v0 P0, pyEval ops env first = .ok (v0, P0) ∧
+      ∀ p ∈ P0, p ∈ (visit ops env.builtins (Tbl.ofNames env.names) (.comp i targets first inner)).log := by
+  have hwf' : (Expr.comp i targets first inner).wf = true := by simpa only [Expr.wf] using hwf
+  have hrec := C06_everything_python_evaluated_is_recorded ops env _ v P hwf' hid h
+  simp only [pyEval, Except.bind_eq_ok_iff, pure, Except.pure, Except.ok.injEq, Prod.mk.injEq] at h
+  obtain ⟨⟨v0, P0⟩, h0, r, _, _, rfl⟩ := h
+  exact ⟨v0, P0, h0, fun p hp => hrec p (List.mem_append_left _ hp)⟩
+
+/-- non-vacuity: `[s for s in s]` - the target is called like the name used in the first iterable; the comprehension's
+native execution (here: it yields the elements of `s`) is some concrete `Ops.comp` -/
+def opsFirst : Ops :=
+  { Cex.ops0 with comp := fun _ names => .ok (match lookup names "s" with | some x => x | none => .none) }
+
+def exFirst : Expr := .comp 0 ["s"] (.name 1 "s") [.name 2 "s"]
+
+def envFirst : Env := ⟨[("s", .list [.int 1, .int 2])], []⟩
+
+example : (Expr.name 1 "s").wf = true := by rfl
+example : (allIds exFirst).Nodup := by decide
+example : pyEval opsFirst envFirst exFirst =
+    .ok (.list [.int 1, .int 2], [(1, .list [.int 1, .int 2]), (0, .list [.int 1, .int 2])]) := by rfl
+/-- the first iterable `s` (node 1) is recorded with its value in the enclosing scope, the element `s` (node 2: the
+target) is not -/
+example : (visit opsFirst envFirst.builtins (Tbl.ofNames envFirst.names) exFirst).log =
+    [(1, .list [.int 1, .int 2]), (0, .list [.int 1, .int 2])] := by rfl
+example : ((1, Val.list [.int 1, .int 2]) : Nat × Val) ∈
+    (visit opsFirst envFirst.builtins (Tbl.ofNames envFirst.names) exFirst).log :=
+  (C06_first_iterable_is_recorded opsFirst envFirst 0 ["s"] (.name 1 "s") [.name 2 "s"] _ _ rfl (by decide)
+    (rfl : pyEval opsFirst envFirst exFirst = .ok (.list [.int 1, .int 2],
+      [(1, .list [.int 1, .int 2]), (0, .list [.int 1, .int 2])]))).elim
+    (fun v0 hx => hx.elim (fun P0 hP => by
+      have h0 : pyEval opsFirst envFirst (.name 1 "s") = .ok (.list [.int 1, .int 2], [(1, .list [.int 1, .int 2])]) := rfl
+      rw [h0] at hP
+      simp only [Except.ok.injEq, Prod.mk.injEq] at hP
+      obtain ⟨⟨_, rfl⟩, hP⟩ := hP
+      exact hP _ (List.mem_singleton.mpr rfl)))
+
 /-- non-vacuity for the forms of the second version: the condition
 `(g((1, *xs), xs[1:n], *xs, k=n, **d), f"v={n!r}")` - a display with a starred element, a call with a starred argument,
 a keyword and `**`, a slice, an f-string with a formatted value - is well-formed, has distinct ids, and Python
